@@ -169,12 +169,13 @@ def check_property(pid, a, seed, timeout_ms, t0):
                     continue
                 scheduled.add(fq)
                 c = eng.contracts[fq]
-                if c.get("inline") or c.get("assumed"):
+                if c.get("inline") or c.get("assumed") or c.get("bounded_only"):
                     continue
                 if c.get("split"):
                     for i in range(len(c["split"])):
                         tasks.append(("verify", fq, i, timeout_ms))
-                    tasks.append(("split", fq, None, timeout_ms))
+                    if not c.get("split_is_domain"):
+                        tasks.append(("split", fq, None, timeout_ms))
                 else:
                     tasks.append(("verify", fq, None, timeout_ms))
             if first:
